@@ -8,6 +8,7 @@ import (
 	"os"
 	"os/exec"
 	"path/filepath"
+	"runtime"
 	"strings"
 	"sync"
 	"time"
@@ -32,6 +33,8 @@ type SolveOpts struct {
 	All       bool          // thorough: run every solver and cross-check
 	Workers   int
 	KeepFiles bool
+	NoBatch   bool
+	NoRetry   bool
 }
 
 type solveStats struct {
@@ -44,7 +47,11 @@ type solveStats struct {
 func (o *Obligation) smt(withModel bool) string {
 	var b strings.Builder
 	b.WriteString("(set-option :produce-models true)\n(set-logic ALL)\n")
-	b.WriteString(o.sc.prefix(o.mark))
+	npf := -1
+	if o.batch {
+		npf = o.noProvedFrom
+	}
+	b.WriteString(o.sc.prefixHiding(o.mark, o.hide, npf))
 	b.WriteString("\n(assert " + o.cond + ")\n(check-sat)\n")
 	if withModel && len(o.getvals) > 0 {
 		b.WriteString("(get-value (" + strings.Join(o.getvals, " ") + "))\n")
@@ -147,13 +154,26 @@ func solveQuery(o *Obligation, opts SolveOpts, stats *solveStats, idx int) {
 	}
 	if o.Smoke {
 		// reachability checks only need "not unsat": one solver, short limit
-		v, out, secs := runSolver(ctx, solvers[0], file, 2*time.Second)
+		v, out, secs := runSolver(ctx, solvers[0], file, time.Second)
 		record(solvers[0].name, v, secs)
 		o.Result, o.Solver, o.Output = v, solvers[0].name, firstLines(out, 2)
 		if v != "unsat" && v != "sat" {
 			o.Result = "unknown"
 		}
 		return
+	}
+	// stage 1: most queries are decided by z3-new within a fraction of a second;
+	// trying it alone first saves two thirds of the processes
+	if opts.Stage1 > 0 {
+		v, out, secs := runSolver(ctx, solvers[0], file, opts.Stage1)
+		record(solvers[0].name, v, secs)
+		if v == "unsat" || v == "sat" {
+			o.Result, o.Solver, o.Output = v, solvers[0].name, solvers[0].name+": "+v
+			if v == "sat" {
+				o.Model = out
+			}
+			return
+		}
 	}
 	// race: first definitive answer wins
 	rctx, cancel := context.WithCancel(ctx)
@@ -200,7 +220,7 @@ func firstLines(s string, n int) string {
 func solveAll(obls []*Obligation, opts SolveOpts) *solveStats {
 	stats := &solveStats{wins: map[string]int{}, secs: map[string]float64{}}
 	if opts.Workers <= 0 {
-		opts.Workers = 8
+		opts.Workers = runtime.NumCPU()
 	}
 	// one task per query: obligations with several parts (return paths) are
 	// split and aggregated afterwards
@@ -222,7 +242,91 @@ func solveAll(obls []*Obligation, opts SolveOpts) *solveStats {
 			sub := *o
 			sub.parts = nil
 			sub.cond = p
+			if pi < len(o.partHide) {
+				sub.hide = o.partHide[pi]
+			}
 			tasks = append(tasks, &task{o: o, part: pi, sub: &sub})
+		}
+	}
+	// Batching (quick tier): the clauses of one postcondition / invariant set on
+	// the same path share their whole prefix, so they are first tried as one
+	// query (the disjunction of the negated goals). Only if that is not unsat
+	// are the members solved one by one, so every verdict that is reported as a
+	// failure still comes from the clause's own query.
+	batched := map[*task]bool{}
+	if !opts.All && !opts.NoBatch {
+		groups := map[string][]*task{}
+		var keys []string
+		for _, t := range tasks {
+			if t.part < 0 || t.o.Canary || t.o.Smoke || t.o.Finding != "" {
+				continue
+			}
+			if t.o.Kind != "postcondition" && t.o.Kind != "invariant" {
+				continue
+			}
+			k := fmt.Sprintf("%s|%s|%p|%d|%v", t.o.Fn, t.o.Kind, t.o.sc, t.part, t.sub.hide)
+			if t.o.Kind == "invariant" {
+				// entry/preserved of one loop
+				nm := t.o.Name
+				if i := strings.LastIndex(nm, ":"); i > 0 {
+					nm = nm[:i]
+				}
+				k += "|" + nm
+			}
+			if _, ok := groups[k]; !ok {
+				keys = append(keys, k)
+			}
+			groups[k] = append(groups[k], t)
+		}
+		var bts [][]*task
+		for _, k := range keys {
+			if len(groups[k]) > 1 {
+				bts = append(bts, groups[k])
+			}
+		}
+		var bwg sync.WaitGroup
+		bch := make(chan int)
+		for w := 0; w < opts.Workers; w++ {
+			bwg.Add(1)
+			go func() {
+				defer bwg.Done()
+				for i := range bch {
+					g := bts[i]
+					b := *g[0].sub
+					b.batch = true
+					b.noProvedFrom = b.mark
+					var conds []T
+					for _, t := range g {
+						conds = append(conds, t.sub.cond)
+						if t.sub.mark > b.mark {
+							b.mark = t.sub.mark
+						}
+						if t.sub.mark < b.noProvedFrom {
+							b.noProvedFrom = t.sub.mark
+						}
+					}
+					b.cond = or(conds...)
+					solveQuery(&b, opts, stats, 1000000+i)
+					if b.Result == "unsat" {
+						for _, t := range g {
+							t.sub.Result, t.sub.Solver, t.sub.Secs = "unsat", b.Solver, b.Secs/float64(len(g))
+							t.sub.Output = "batched with the other clauses of this path"
+						}
+					}
+				}
+			}()
+		}
+		for i := range bts {
+			bch <- i
+		}
+		close(bch)
+		bwg.Wait()
+		for _, g := range bts {
+			for _, t := range g {
+				if t.sub.Result == "unsat" {
+					batched[t] = true
+				}
+			}
 		}
 	}
 	var wg sync.WaitGroup
@@ -244,10 +348,55 @@ func solveAll(obls []*Obligation, opts SolveOpts) *solveStats {
 		}()
 	}
 	for i := range tasks {
+		if batched[tasks[i]] {
+			continue
+		}
 		ch <- i
 	}
 	close(ch)
 	wg.Wait()
+	// second chance: a query that came back undecided while the machine was
+	// saturated (up to three solver processes per worker) is run again with few
+	// workers and three times the limit before it is reported
+	if !opts.NoRetry {
+		var again []int
+		for i, t := range tasks {
+			if batched[t] || t.o.Canary || t.o.Smoke {
+				continue
+			}
+			if r := t.sub.Result; r != "unsat" && r != "sat" && r != "disagreement" {
+				again = append(again, i)
+			}
+		}
+		if len(again) > 0 && len(again) <= 64 {
+			var wg2 sync.WaitGroup
+			ch2 := make(chan int)
+			nw := opts.Workers / 3
+			if nw < 1 {
+				nw = 1
+			}
+			for w := 0; w < nw; w++ {
+				wg2.Add(1)
+				go func() {
+					defer wg2.Done()
+					for i := range ch2 {
+						po := opts
+						po.Stage1 = 0
+						po.Stage2 = 3 * opts.Stage2
+						first := tasks[i].sub.Secs
+						solveQuery(tasks[i].sub, po, stats, 2000000+i)
+						tasks[i].sub.Secs += first
+						tasks[i].sub.Output = "retried: " + tasks[i].sub.Output
+					}
+				}()
+			}
+			for _, i := range again {
+				ch2 <- i
+			}
+			close(ch2)
+			wg2.Wait()
+		}
+	}
 	// aggregate
 	agg := map[*Obligation][]*task{}
 	for _, t := range tasks {
